@@ -197,13 +197,16 @@ Qed.
 Definition utf8_ok (v : bytes) : bool :=
   forallb valid_rune (runes_of v) && bytes_eqb (string_of_runes (runes_of v)) v.
 
+(* a literal token also has to hold a JSON text (for what follows the lexer) *)
+Definition json_valid (t : bytes) : bool := match json_unmarshal t with Some _ => true | None => false end.
+
 Definition lexable (t : token) : bool :=
   match ttype t with
   | tUnquotedIdentifier => valid_unquoted (tvalue t)
   | tQuotedIdentifier => utf8_ok (tvalue t)
   | tNumber => number_text (tvalue t)
   | tStringLiteral => raw_ok (tvalue t)
-  | tJSONLiteral => paired (tvalue t)
+  | tJSONLiteral => paired (tvalue t) && json_valid (tvalue t)
   | ty => match fixed_text ty with Some txt => bytes_eqb (tvalue t) txt | None => false end
   end.
 
@@ -224,7 +227,7 @@ Proof.
   - apply lexed_unquoted; assumption.
   - unfold utf8_ok in Hl. apply andb_true_iff in Hl as [H1 H2]. apply bytes_eqb_eq in H2.
     rewrite <- H2 at 1. rewrite <- H2 at 2. apply lexed_quoted; assumption.
-  - apply lexed_literal; assumption.
+  - apply andb_true_iff in Hl as [Hl _]. apply lexed_literal; assumption.
   - apply lexed_raw; assumption.
 Qed.
 
@@ -370,7 +373,7 @@ Fixpoint texty (e : expr) : bool :=
   match e with
   | EIdent q name => if q then utf8_ok name else valid_unquoted name
   | ECurrent => true
-  | ELit v => paired (lit_text v)
+  | ELit v => paired (lit_text v) && json_valid (lit_text v)
   | ERaw s => raw_ok s
   | EParen x => texty x
   | EMSList es => forallb texty es
@@ -459,7 +462,7 @@ End Texty.
 (* ---- Compile on the canonical text of a well-precedenced tree ---- *)
 Section Text.
 Variable lit_text : value -> bytes.
-Hypothesis lit_ok : forall v, is_json v = true -> json_unmarshal (lit_text v) = Some v.
+Hypothesis lit_ok : lit_spec lit_text.
 
 Definition expr_text (e : expr) : bytes := text_of (render lit_text e).
 
@@ -495,7 +498,14 @@ Proof.
     assert (H2 : Forall2 same_tv (out ++ [Token tEOF [] (zlen (text_ws l)) 0]) (render lit_text e ++ [tk tEOF []])).
     { apply Forall2_app; [exact Hs|]. constructor; [split; reflexivity | constructor]. }
     destruct (Forall2_nth _ _ _ H2 k t Hk) as [t' [Hk' [T1 T2]]]. exists t'. split; [exact Hk'|]. split; [exact T1|].
-    rewrite T2. destruct (ttype t); cbn; auto.
+    rewrite T2. apply veq_self. intros Ety.
+    (* a literal token of the spelling holds a JSON text: it is one of the tokens of l *)
+    assert (Hin : In t (map fst l)).
+    { rewrite Hr. apply nth_error_In in Hk. apply in_app_or in Hk as [Hk|[<-|[]]]; [exact Hk | discriminate Ety]. }
+    apply in_map_iff in Hin as [[t0 w0] [E0 Hin]]. cbn [fst] in E0. subst t0.
+    unfold ws_text_ok in Hl. rewrite Forall_forall in Hl. destruct (Hl _ Hin) as [Hlex _]. cbn [fst] in Hlex.
+    unfold lexable in Hlex. rewrite Ety in Hlex. apply andb_true_iff in Hlex as [_ Hv]. unfold json_valid in Hv.
+    destruct (json_unmarshal (tvalue t)); [discriminate | discriminate Hv].
 Qed.
 
 (* whitespace between tokens is insignificant: two texts with the same tokens and
